@@ -155,6 +155,45 @@ def run(ctx):
                       % (key.rsplit("::", 1)[-1], r[2], pa.vfmt(fld.get("absolute"))[:60] if fld.get("absolute") else "?", [pa.vfmt(t)[:50] for t in tracked]), "", None, p.describe())
     ctx.floor("C20-b", "encoder results carrying a dynamic index", n_ref, 6)
 
+    # the field section's required reference: a representation that points into the dynamic table reports the absolute index it
+    # depends on (the Required Insert Count is computed from these); only static / literal representations report none
+    ef = ru.need(ctx, "C20-b", "h3::qpack::encoder::Encoder::encode_field")
+    if ef:
+        DYN = ("Relative", "PostBase", "Duplicated", "Inserted", "InsertedWithNameRef", "InsertedWithStaticNameRef")
+        n_dyn = n_none = 0
+        for p in [p for p in ru.all_paths(ctx, "C20-b", ef, max_visits=1) if p.end == "return" and p.ret_shape().startswith("Ok(")]:
+            labs = [t[2] for t in p.tests if t[3][0] == "discr" and t[2] not in ("Continue", "Break")]
+            last = labs[-1] if labs else None
+            rv = pa.vfmt(p.ret)
+            if last in DYN:
+                n_dyn += 1
+                ok = rv.startswith("Ok(Some(") and rv.endswith(".absolute))") and ("<%s>" % last) in rv
+                ctx.check(ok, "C20-b", ef.key, "%s: the section depends on that entry's absolute index" % last,
+                          "encode_field writes a %s representation but reports %s as the reference the section requires: the Required Insert Count is "
+                          "understated and the decoder reads the section before the entry exists (or rejects the post-base index)" % (last, rv[:90]), "", None, p.describe())
+            else:
+                n_none += 1
+                ctx.check(rv == "Ok(None())", "C20-b", ef.key, "%s: no dynamic reference reported" % (last or "static hit"),
+                          "encode_field reports %s for a representation without a dynamic reference (%s)" % (rv[:80], last), "", None, p.describe())
+        ctx.floor("C20-b", "dynamic-reference results of encode_field", n_dyn, 6)
+        ctx.floor("C20-b", "reference-free results of encode_field", n_none, 3)
+    # eviction drops an entry from BOTH lookup maps (each when its stored index is the evicted one): a stale index left in either
+    # map is handed out later for a field the table no longer holds
+    ev = ru.need(ctx, "C20-b", D + "evict")
+    if ev:
+        heads_ = ev.loop_heads()
+        ex_ = pa.Explorer(prog, ev, max_visits=1)
+        n_it = 0
+        for h_ in heads_:
+            for p in ex_.paths(start=h_, stop_at=heads_):
+                if p.end != "stop":
+                    continue
+                n_it += 1
+                maps = [pa.vfmt(e[3][0]).rsplit(".", 1)[-1] for e in p.calls("HashMap<K, V, S>::entry", "::entry")]
+                ctx.check(sorted(maps) == ["field_map", "name_map"], "C20-b", ev.key, "every evicted entry is looked up in both maps",
+                          "an iteration of evict consults %s only: the other map keeps an index of the evicted entry" % maps, "", None, p.describe())
+        ctx.floor("C20-b", "iterations of evict", n_it, 4)
+
     # ------------------------------------------------------------ C20-c
     first_byte_table(ctx, "C20-c", Q + "stream::EncoderInstruction::decode",
                      {k: v["first_byte"] for k, v in WIRE["encoder_instructions"].items()},
